@@ -31,9 +31,10 @@ VARIABLES
   arenas,    \* [arena id -> [a, e, excl]]
   osfail,    \* [thread -> BOOLEAN] an OS request was refused while the thread's current call was running
   cfg,       \* configuration record of the run (build, padding, options)
+  pcm,       \* <<max page areas in the first half, in the second half>> of a producer/consumer run (C08 NoBlowUp)
   step       \* number of events consumed (position in the trace)
 
-apiVars == <<live, heaps, dflt, backing, flux, arenas, osfail, cfg, step>>
+apiVars == <<live, heaps, dflt, backing, flux, arenas, osfail, cfg, pcm, step>>
 
 NoCall == [op |-> "none"]
 
@@ -83,6 +84,7 @@ ApiInit ==
   /\ arenas = <<>>
   /\ osfail = (0 :> FALSE)
   /\ cfg = [build |-> "rel", padding |-> FALSE]
+  /\ pcm = <<0, 0>>
   /\ step = 0
 
 \* ---------------------------------------------------------------- observations of contents
@@ -136,26 +138,26 @@ Call(c) ==
             /\ G("FreeOfLiveBlock", c.id \in LiveIds)
             /\ flux' = [flux EXCEPT ![c.t] = c]
             /\ live' = [b \in LiveIds \ {c.id} |-> live[b]]      \* from now on the range may be reused
-            /\ UNCHANGED <<heaps, dflt, backing, arenas, cfg>>
+            /\ UNCHANGED <<heaps, dflt, backing, arenas, cfg, pcm>>
        [] c.op \in ReallocOps /\ c.id > 0 ->
             /\ G("ReallocOfLiveBlock", c.id \in LiveIds)
             /\ flux' = [flux EXCEPT ![c.t] = [old |-> IF c.id \in LiveIds THEN live[c.id] ELSE NoCall] @@ c]
             /\ live' = [b \in LiveIds \ {c.id} |-> live[b]]      \* in flux: may be freed inside the call
-            /\ UNCHANGED <<heaps, dflt, backing, arenas, cfg>>
+            /\ UNCHANGED <<heaps, dflt, backing, arenas, cfg, pcm>>
        [] c.op = "heap_destroy" ->
             \* all blocks of the heap die (and its descriptor block)
             /\ G("DestroyOfLiveHeap", c.h \in DOMAIN heaps /\ ~heaps[c.h].backing)
             /\ flux' = [flux EXCEPT ![c.t] = c]
             /\ live' = [b \in {x \in LiveIds : live[x].h # c.h /\ x # heaps[c.h].desc} |-> live[b]]
-            /\ UNCHANGED <<heaps, dflt, backing, arenas, cfg>>
+            /\ UNCHANGED <<heaps, dflt, backing, arenas, cfg, pcm>>
        [] c.op = "heap_delete" ->
             /\ G("DeleteOfLiveHeap", c.h \in DOMAIN heaps /\ ~heaps[c.h].backing)
             /\ flux' = [flux EXCEPT ![c.t] = c]
             /\ live' = [b \in LiveIds \ {heaps[c.h].desc} |-> live[b]]   \* the descriptor block is released
-            /\ UNCHANGED <<heaps, dflt, backing, arenas, cfg>>
+            /\ UNCHANGED <<heaps, dflt, backing, arenas, cfg, pcm>>
        [] OTHER ->
             /\ flux' = [flux EXCEPT ![c.t] = c]
-            /\ UNCHANGED <<live, heaps, dflt, backing, arenas, cfg>>
+            /\ UNCHANGED <<live, heaps, dflt, backing, arenas, cfg, pcm>>
 
 \* ---------------------------------------------------------------- Ret: the call returns
 \* A NULL result of an allocating call is legitimate only for a malformed / oversized request class,
@@ -163,7 +165,7 @@ Call(c) ==
 NullAllowed(c) == c.cls # "ok" \/ osfail[c.t] \/ ArenaOf(HeapOf(c)) # 0
 
 RetAlloc(c, r) ==
-  /\ UNCHANGED <<heaps, dflt, backing, arenas, cfg>>
+  /\ UNCHANGED <<heaps, dflt, backing, arenas, cfg, pcm>>
   /\ IF r.null
      THEN /\ GD("WellFormedSucceeds", c.op, NullAllowed(c))
           /\ (c.cls = "einval" => GD("ErrCode", c.op, r.rc = 22))
@@ -175,7 +177,7 @@ RetAlloc(c, r) ==
           /\ NewBlockOK(c, r, HeapOf(c))
           /\ live' = live @@ (r.id :> MkBlock(c, r, HeapOf(c), c.zero))
 
-RetFree(c, r) == UNCHANGED <<live, heaps, dflt, backing, arenas, cfg>>
+RetFree(c, r) == UNCHANGED <<live, heaps, dflt, backing, arenas, cfg, pcm>>
 
 \* C05 / C04: realloc family.  old = the block record captured at Call (or NoCall when p = NULL)
 RetRealloc(c, r) ==
@@ -183,7 +185,7 @@ RetRealloc(c, r) ==
       hasOld == c.id > 0 /\ old # NoCall
       h == IF c.h > 0 THEN c.h ELSE dflt[c.t]
   IN
-  /\ UNCHANGED <<heaps, dflt, backing, arenas, cfg>>
+  /\ UNCHANGED <<heaps, dflt, backing, arenas, cfg, pcm>>
   /\ IF r.null
      THEN /\ GD("WellFormedSucceeds", c.op, NullAllowed(c))
           /\ (c.cls = "overflow" /\ c.op \in {"reallocarray", "reallocarr"} => GD("ErrCode", c.op, r.errno \in {12, 75}))
@@ -217,7 +219,7 @@ RetRealloc(c, r) ==
 
 \* mi_expand never moves; succeeds exactly up to the usable size (builds with padding: always NULL)
 RetExpand(c, r) ==
-  /\ UNCHANGED <<live, heaps, dflt, backing, arenas, cfg>>
+  /\ UNCHANGED <<live, heaps, dflt, backing, arenas, cfg, pcm>>
   /\ G("QueryOfLiveBlock", c.id \in LiveIds)
   /\ (c.id \in LiveIds =>
         IF r.null THEN G("ExpandSucceedsUpToUsable", cfg.padding \/ c.n > live[c.id].us)
@@ -225,7 +227,7 @@ RetExpand(c, r) ==
              /\ G("ExpandWithinUsable", c.n <= live[c.id].us))
 
 RetQuery(c, r) ==
-  /\ UNCHANGED <<live, heaps, dflt, backing, arenas, cfg>>
+  /\ UNCHANGED <<live, heaps, dflt, backing, arenas, cfg, pcm>>
   /\ CASE c.op = "usable_size" ->
             /\ G("QueryOfLiveBlock", c.id \in LiveIds)
             /\ (c.id \in LiveIds => G("UsableStable", r.us = live[c.id].us))
@@ -247,7 +249,10 @@ Encloses(v, b) == LeA(<<v[1], v[2]>>, live[b].a) /\ LeA(live[b].e, AddA(<<v[1], 
 VisitOK(c, r) ==
   LET hb == LiveOfHeap(c.h)
       n == Len(r.blocks)
-  IN IF c.stopat > 0
+  IN IF c.n = 1
+     THEN \* C08 quiescence: everything of this heap was freed (by whichever threads) and the owner force-collected
+          /\ GD("QuiescentClean", <<Cardinality(hb), n, Len(r.areas)>>, hb = {} => (n = 0 /\ Len(r.areas) = 0))
+     ELSE IF c.stopat > 0
      THEN \* the visitor returned false at its stopat-th block: the walk stops right there
           /\ G("StopsWhenFalse", r.nvisited = Min(c.stopat, Cardinality(hb)) /\ (Cardinality(hb) >= c.stopat => ~r.res))
      ELSE /\ GD("WalkCount", <<n, Cardinality(hb)>>, n = Cardinality(hb))
@@ -269,38 +274,38 @@ RetHeap(c, r) ==
   CASE c.op \in {"heap_new", "heap_new_in_arena"} ->
          IF r.null
          THEN /\ G("WellFormedSucceeds", osfail[c.t])
-              /\ UNCHANGED <<live, heaps, dflt, backing, arenas, cfg>>
+              /\ UNCHANGED <<live, heaps, dflt, backing, arenas, cfg, pcm>>
          ELSE \* the heap descriptor is itself a block of the thread's backing heap
               LET e == AddA(r.a, r.us) IN
               /\ G("NoOverlap", NoOverlap(r.a, e))
               /\ heaps' = heaps @@ (r.h :> [t |-> c.t, backing |-> FALSE, arena |-> c.arena, desc |-> r.id])
               /\ live' = live @@ (r.id :> [a |-> r.a, e |-> e, us |-> r.us, req |-> r.us, h |-> backing[c.t], gen |-> 0,
                                             wr |-> 0, zl |-> FALSE, al |-> 0, off |-> 0, kind |-> "heapdesc"])
-              /\ UNCHANGED <<dflt, backing, arenas, cfg>>
+              /\ UNCHANGED <<dflt, backing, arenas, cfg, pcm>>
     [] c.op = "heap_delete" ->
          \* all blocks stay live and now belong to the backing heap; default falls back
          /\ live' = [b \in LiveIds |-> IF live[b].h = c.h THEN [live[b] EXCEPT !.h = backing[c.t]] ELSE live[b]]
          /\ heaps' = [x \in DOMAIN heaps \ {c.h} |-> heaps[x]]
          /\ dflt' = [dflt EXCEPT ![c.t] = IF dflt[c.t] = c.h THEN backing[c.t] ELSE dflt[c.t]]
-         /\ UNCHANGED <<backing, arenas, cfg>>
+         /\ UNCHANGED <<backing, arenas, cfg, pcm>>
     [] c.op = "heap_destroy" ->
          /\ heaps' = [x \in DOMAIN heaps \ {c.h} |-> heaps[x]]
          /\ dflt' = [dflt EXCEPT ![c.t] = IF dflt[c.t] = c.h THEN backing[c.t] ELSE dflt[c.t]]
-         /\ UNCHANGED <<live, backing, arenas, cfg>>
+         /\ UNCHANGED <<live, backing, arenas, cfg, pcm>>
     [] c.op = "heap_set_default" ->
          /\ GD("SetDefaultReturnsOld", <<r.h, dflt[c.t]>>, r.h = dflt[c.t])
          /\ dflt' = [dflt EXCEPT ![c.t] = c.h]
-         /\ UNCHANGED <<live, heaps, backing, arenas, cfg>>
+         /\ UNCHANGED <<live, heaps, backing, arenas, cfg, pcm>>
     [] c.op = "heap_get_default" ->
          /\ GD("DefaultFallsBack", <<r.h, dflt[c.t]>>, r.h = dflt[c.t])
-         /\ UNCHANGED <<live, heaps, dflt, backing, arenas, cfg>>
+         /\ UNCHANGED <<live, heaps, dflt, backing, arenas, cfg, pcm>>
     [] c.op = "heap_get_backing" ->
          /\ G("BackingHeap", r.h = backing[c.t])
-         /\ UNCHANGED <<live, heaps, dflt, backing, arenas, cfg>>
+         /\ UNCHANGED <<live, heaps, dflt, backing, arenas, cfg, pcm>>
     [] c.op = "visit" ->
          /\ VisitOK(c, r)
-         /\ UNCHANGED <<live, heaps, dflt, backing, arenas, cfg>>
-    [] OTHER -> UNCHANGED <<live, heaps, dflt, backing, arenas, cfg>>     \* collect, heap_collect: no visible effect
+         /\ UNCHANGED <<live, heaps, dflt, backing, arenas, cfg, pcm>>
+    [] OTHER -> UNCHANGED <<live, heaps, dflt, backing, arenas, cfg, pcm>>     \* collect, heap_collect: no visible effect
 
 Ret(r) ==
   /\ r.t \in DOMAIN flux /\ flux[r.t] # NoCall /\ flux[r.t].op = r.op
@@ -321,20 +326,20 @@ Write(w) ==
   /\ step' = step + 1
   /\ G("WriteOfLiveBlock", w.id \in LiveIds)
   /\ live' = [live EXCEPT ![w.id] = [@ EXCEPT !.gen = w.gen, !.wr = w.wr, !.zl = @ /\ w.wr <= live[w.id].req]]
-  /\ UNCHANGED <<heaps, dflt, backing, flux, arenas, osfail, cfg>>
+  /\ UNCHANGED <<heaps, dflt, backing, flux, arenas, osfail, cfg, pcm>>
 
 \* full check of all contents at a checkpoint
 CheckAll(ev) ==
   /\ step' = step + 1
   /\ ObsOK(ev.obs)
   /\ GD("CheckAllComplete", <<Len(ev.obs), Cardinality({b \in LiveIds : live[b].kind = "blk"})>>, Len(ev.obs) = Cardinality({b \in LiveIds : live[b].kind = "blk"}))
-  /\ UNCHANGED <<live, heaps, dflt, backing, flux, arenas, osfail, cfg>>
+  /\ UNCHANGED <<live, heaps, dflt, backing, flux, arenas, osfail, cfg, pcm>>
 
 \* a managed arena is announced (mi_manage_os_memory_ex / mi_reserve_os_memory_ex returned its id and area)
 ArenaNew(ev) ==
   /\ step' = step + 1
   /\ arenas' = arenas @@ (ev.id :> [a |-> ev.a, e |-> AddP(ev.a, ev.len), excl |-> ev.excl])
-  /\ UNCHANGED <<live, heaps, dflt, backing, flux, osfail, cfg>>
+  /\ UNCHANGED <<live, heaps, dflt, backing, flux, osfail, cfg, pcm>>
 
 \* threads
 ThreadStart(ev) ==
@@ -345,7 +350,7 @@ ThreadStart(ev) ==
   /\ backing' = backing @@ (ev.t :> ev.h)
   /\ flux' = flux @@ (ev.t :> NoCall)
   /\ osfail' = osfail @@ (ev.t :> FALSE)
-  /\ UNCHANGED <<live, arenas, cfg>>
+  /\ UNCHANGED <<live, arenas, cfg, pcm>>
 
 \* thread exit: its heaps disappear, its live blocks stay live (orphans, heap 0)
 ThreadDone(ev) ==
@@ -359,10 +364,23 @@ ThreadDone(ev) ==
   /\ backing' = [t \in DOMAIN backing \ {ev.t} |-> backing[t]]
   /\ flux' = [t \in DOMAIN flux \ {ev.t} |-> flux[t]]
   /\ osfail' = [t \in DOMAIN osfail \ {ev.t} |-> osfail[t]]
-  /\ UNCHANGED <<arenas, cfg>>
+  /\ UNCHANGED <<arenas, cfg, pcm>>
 
 \* an OS request was refused while thread t was (possibly) inside a call
 OsRefused == osfail' = [x \in DOMAIN osfail |-> TRUE]
+
+\* C08: a producer/consumer run with a bounded number of live blocks runs in bounded memory: the heap's page-area count
+\* reached in the second half of the run does not exceed what the first half (after a warm-up eighth) already reached (+2 pages).
+\* No implementation constant enters: a sawtooth between drains of the delayed list has the same maximum in both halves.
+Round(ev) ==
+  /\ step' = step + 1
+  /\ LET first == ev.k * 8 > ev.n /\ ev.k * 2 <= ev.n
+         second == ev.k * 2 > ev.n
+         m1 == IF first THEN Max(pcm[1], ev.areas) ELSE pcm[1]
+         m2 == IF second THEN Max(pcm[2], ev.areas) ELSE pcm[2]
+     IN /\ pcm' = IF ev.k = 1 THEN <<0, 0>> ELSE <<m1, m2>>
+        /\ (ev.k = ev.n => GD("NoBlowUp", <<m1, m2>>, m2 <= m1 + 2))
+  /\ UNCHANGED <<live, heaps, dflt, backing, flux, arenas, osfail, cfg>>
 
 \* ---------------------------------------------------------------- state invariants (checked by TLC in MC and on every trace state)
 LiveDisjoint == \A b1, b2 \in LiveIds : b1 # b2 => (DisjointR(live[b1].a, live[b1].e, live[b2].a, live[b2].e) /\ live[b1].a # live[b2].a)
